@@ -73,11 +73,13 @@ def ser(obj, container):
 
 
 def build(case):
-    inner = {"sinkinst": None, "dotted": None, "cross": None, "allowed": [torch.tensor([1.0, 2.0]), {"w": torch.zeros(2)}], "sink": R(verif_sink.hit, ("nested",)),
+    inner = {"sinkinst": None, "dotted": None, "cross": None, "oddname": None, "allowed": [torch.tensor([1.0, 2.0]), {"w": torch.zeros(2)}], "sink": R(verif_sink.hit, ("nested",)),
              "dangerous": R(os.getpid, ()), "mlonly": [__import__("datetime").date, __import__("fractions").Fraction]}[case["inner"]]
     chain = case["chain"]
-    if case["inner"] in ("sinkinst", "dotted", "cross"):       # raw bytes: only a bare (pickle.loads-style) innermost level can carry them
+    if case["inner"] in ("sinkinst", "dotted", "cross", "oddname"):       # raw bytes: only a bare (pickle.loads-style) innermost level can carry them
+        odd = ["{0}", "lo}ad", "{x.y}", "a b", "\u00dcn\u00ef", "%s%d", "{"][sum(len(w) for w, _c in chain) % 7].encode()
         raw = b"(S'nested'\niverif_sink\nhit\n." if case["inner"] == "sinkinst" else \
+            (b"ccollections\n" + odd + b"\n." if len(chain) % 2 else b"\x80\x04\x8c\x0bcollections\x8c" + bytes([len(odd)]) + odd + b"\x93.") if case["inner"] == "oddname" else \
             b"cverif_sink\nloads\n(S'nested'\ntR." if case["inner"] == "cross" else \
             b"\x80\x04\x8c\x0bcollections\x8c\x14OrderedDict.fromkeys\x93]\x85R."      # OrderedDict.fromkeys([]) by qualified name
         if chain and chain[-1][1] != "bare":
